@@ -88,7 +88,10 @@ def run(rep, tier, seed, model_ok=True, effort=1):
                                 ("1.0.0rc2", "MAJOR.MINOR.PATCH[PYTAGNUM]", "beta"), ("1.0.0rc2", "MAJOR.MINOR.PATCH[PYTAGNUM]", "final"),
                                 ("1.0.0", "MAJOR.MINOR.PATCH[PYTAGNUM]", "post"), ("1.0.0post0", "MAJOR.MINOR.PATCH[PYTAGNUM]", "dev"),
                                 ("1.0.0dev0", "MAJOR.MINOR.PATCH[PYTAGNUM]", "alpha"), ("1.0.0-beta", "MAJOR.MINOR.PATCH[-TAG]", "alpha"),
-                                ("1.0.0-rc", "MAJOR.MINOR.PATCH[-TAG]", "dev"), ("1.0.0", "MAJOR.MINOR.PATCH[-TAG]", "rc")]:
+                                ("1.0.0-rc", "MAJOR.MINOR.PATCH[-TAG]", "dev"), ("1.0.0", "MAJOR.MINOR.PATCH[-TAG]", "rc"),
+                                # alternate spellings: preview == rc, so rc0 is below preview5
+                                ("1.0.0-preview5", "MAJOR.MINOR.PATCH[-TAGNUM]", "rc"), ("1.0.0-preview", "MAJOR.MINOR.PATCH[-TAG]", "rc"),
+                                ("1.0.0-preview2", "MAJOR.MINOR.PATCH[-TAGNUM]", "beta"), ("1.0.0-preview2", "MAJOR.MINOR.PATCH[-TAGNUM]", "post")]:
         fl_c = dict(F0, tag=tag_c)
         args = ["test", old_c, pat_c] + c05.flag_args(fl_c, None)
         code, out, exc = impl.run_cli(args)
